@@ -176,6 +176,37 @@ func AErrNil(name string, pat Pat) Atom {
 }
 
 // AEq: "x == y" for values matching px, py in either order.
+// ANonNil: the atom "p != nil" (matches == nil and != nil tests of a value matching p).
+func ANonNil(name string, p Pat) Atom {
+	return Atom{name, cmpAtom(func(op token.Token, x, y ssa.Value) (bool, bool) {
+		if (op == token.EQL || op == token.NEQ) && ((p(x) && isNilConst(y)) || (p(y) && isNilConst(x))) {
+			return true, op == token.NEQ
+		}
+		return false, false
+	})}
+}
+
+// RequestProcessed: when the optional request field is present, every success return of the
+// handler passes one of the applying calls.
+func (c *Ctx) RequestProcessed(f *ssa.Function, field string, key string, via ...ssa.CallInstruction) {
+	has := ANonNil("msg."+field+" != nil", PField(PParam("msg"), field))
+	var vs []ssa.Instruction
+	for _, v := range via {
+		if v == nil {
+			return
+		}
+		vs = append(vs, v)
+	}
+	n := 0
+	for _, r := range successReturns(f) {
+		n++
+		c.MustPassWhen(r, vs, key, T(has))
+	}
+	if n == 0 {
+		c.Check(false, key, f, "the handler has a success return")
+	}
+}
+
 func AEq(name string, px, py Pat) Atom { return Atom{name, eqAtom(px, py)} }
 
 // ACmp: ordered comparison "x op y" normalised: the atom holds when (x OP y) for the given OP,
